@@ -3,19 +3,19 @@ NA['C08'] = 'same as C04: run histories through Evolver/ORM (Version, Evolution 
 NA['C10'] = 'same as C04: needs Django migration loader/executor/recorder end to end, untraceable and with only discrete scenario choices (DESIGN.md section 6)'
 
 check('C09',
-      'Bounded model checking of the real DependencyGraph code: CrossHair explores every path of add_node/add_dependency/finalize/get_ordered with the whole edge relation symbolic; exhaustive for all digraphs on <=4 nodes (quick); thorough adds a seeded sample of 96 of the 4096 twelve-bit classes of 5-node digraphs, each class exhaustively. Acyclic => order is a permutation honouring every edge; cyclic => exception. Plus EvolutionGraph (add_evolutions, mark_evolutions_applied, iter_batches, get_evolution_dependencies, get_evolution_app_dependencies) over three fake apps with symbolic evolution counts, applied prefixes, one before/after declaration at evolution or app level and both registration orders: every pending evolution exactly once, sequence order and the declared requirement honoured.',
+      'Bounded model checking of the real DependencyGraph code: CrossHair explores every path of add_node/add_dependency/finalize/get_ordered with the whole edge relation symbolic; exhaustive for all digraphs on <=4 nodes (quick); thorough adds a seeded sample of 96 of the 4096 twelve-bit classes of 5-node digraphs, each class exhaustively. Acyclic => order is a permutation honouring every edge; cyclic => exception. Plus get_evolution_dependencies as a kernel (declared AFTER/BEFORE lists merged with mutation-generated dependencies) and EvolutionGraph (add_evolutions, mark_evolutions_applied, iter_batches, get_evolution_dependencies, get_evolution_app_dependencies) over three fake apps with symbolic evolution counts, applied prefixes, one before/after declaration at evolution or app level and both registration orders: every pending evolution exactly once, sequence order and the declared requirement honoured.',
       'Trusted: CrossHair+z3, the Kahn oracle in harness/c09.py. Outside: signal order during a real evolve(), migrations in the graph (add_migration_plan) and Django migration planner, graphs beyond the bound. Fake app modules; importlib untraced.',
       'CrossHair symbolic execution (z3) of utils/graph.py, partitioned, counterexamples replayed concretely',
       design_ref='5.7')
 
 check('C11',
-      'Bounded model checking of the real simulate() code of RenameModel/RenameAppLabel/RenameField/DeleteField/DeleteModel/DeleteApplication: CrossHair explores every path over a 2-app/3-model project whose labels, names, relation structure and mutation parameters are symbolic choices from stated pools, for all sequences of length 1 and 2 (quick: one relation shape; thorough: four shapes / all label pairs); a reference identity model is the oracle. Plus free-string bug-hunting passes.',
+      'Bounded model checking of the real simulate() code of RenameModel/RenameAppLabel/RenameField/DeleteField/DeleteModel/DeleteApplication: CrossHair explores every path over a 2-app/3-model project whose labels, names, relation structure and mutation parameters are symbolic choices from stated pools, for all sequences of length 1 and 2 (quick: two relation shapes; thorough: five shapes / all label pairs), and for RenameAppLabel with its optional legacy_app_label / model_names arguments (incl. a subset that leaves models behind under the old label); a reference identity model is the oracle. Plus free-string bug-hunting passes.',
       'Signature level only; foreign keys in a real database (PRAGMA foreign_key_check) are outside. Names come from finite pools (the code hashes them). Trusted: CrossHair+z3, the reference model in harness/c11.py.',
       'CrossHair symbolic execution (z3) of the mutations simulate() code, partitioned, counterexamples replayed concretely',
       design_ref='5.8')
 
 check('C12',
-      'Bounded model checking: (a) the real evolve command (handle/_add_tasks/_check_simulation/_perform_evolution) is executed symbolically over all combinations of the answers a stub Evolver can give and the command-line flags; evolve() is reached only when simulation yields exactly the target (or cannot be simulated), and an unreachable target always ends in CommandError. (b) simulate() rejection totality for the five named error classes and residual-diff detection for perturbed evolutions, with attribute values symbolic.',
+      'Bounded model checking: (a) the real evolve command (handle/_add_tasks/_check_simulation/_perform_evolution) is executed symbolically over all combinations of the answers a stub Evolver can give and the command-line flags; evolve() is reached only when simulation yields exactly the target (or cannot be simulated), and an unreachable target always ends in CommandError; the residual is a real diff.py Diff of nine kinds (field attribute, extra/missing field, Meta, left-over model, left-over app, combinations). (b) simulate() rejection totality for the five named error classes and residual-diff detection for perturbed evolutions, with attribute values symbolic.',
       'Stub Evolver (its answers are symbolic flags); database untouchedness is implied only via "evolve() not called"; Evolver.__init__ baseline writing is outside; names come from finite pools. Trusted: CrossHair+z3, reference verdicts in harness/c12.py.',
       'CrossHair symbolic execution (z3) of management/commands/evolve.py and mutations simulate(), counterexamples replayed concretely',
       design_ref='5.9')
@@ -27,7 +27,7 @@ check('C17',
       design_ref='5.14')
 
 check('C07',
-      'Bounded model checking of the real SQLExecutor against the real in-memory SQLite database: the crash index k (statement at which an injected OperationalError is raised) is the symbolic variable; for every k over hand-written and generator-produced statement lists the database equals its pre-image, the error names the failing statement, and a retry converges. Evolver.evolve() is additionally shown never to save the signature after a failing task.',
+      'Bounded model checking of the real SQLExecutor against the real in-memory SQLite database: the crash index k (statement at which an injected OperationalError is raised) is the symbolic variable; for every k over hand-written and generator-produced statement lists the database equals its pre-image, the error names the failing statement, and a retry converges. Evolver.evolve() is additionally shown never to save the signature after a failing task, and EvolveAppTask.execute_tasks() to hand every failing step (incl. deferred SQL of new models) to its caller as an error.',
       'Executor + evolve() ordering kernel only: failures inside Django migration executor, multi-batch runs and non-SQLite back ends are outside; lists with explicit transaction groups are only checked for group atomicity. Trusted: CrossHair+z3, SQLite/Django as concrete environment.',
       'CrossHair symbolic execution (z3) of utils/sql.py SQLExecutor over a symbolic fault index against real SQLite; counterexamples replayed concretely',
       design_ref='5.6')
